@@ -106,8 +106,12 @@ func ErrorCorrection_EncodeECC200(codewords []byte, symbolInfo *SymbolInfo) ([]b
 			}
 			ecc, _ := createECCBlock(temp, errorSizes[block])
 			pos := 0
+			// The interleaving of the error codewords continues where the data codewords
+			// left off: with 1558 data codewords in 10 blocks (144x144) the first error
+			// codeword belongs to block 9, not block 1 (ISO/IEC 16022, cf. decoder/data_block.go).
+			shift := (blockCount - symbolInfo.GetDataCapacity()%blockCount) % blockCount
 			for e := block; e < errorSizes[block]*blockCount; e += blockCount {
-				sb[symbolInfo.GetDataCapacity()+e] = ecc[pos]
+				sb[symbolInfo.GetDataCapacity()+e-block+(block+shift)%blockCount] = ecc[pos]
 				pos++
 			}
 		}
